@@ -1,41 +1,53 @@
 #!/usr/bin/env python3
-"""applies every seeded defect under /verif/seeded to /repo in turn, runs the check of its property (and any
-extra properties given in meta['also']), undoes the change, and records the outcome in seeded/RESULTS.json.
-usage: tools/sweep_seeds.py [seed ids...]"""
-import json, os, subprocess, sys, time
+"""Runs every seeded defect under /verif/seeded against the check of its property.  Each seed is applied to a private scratch
+copy of /repo/py_ecc (outside /repo and /verif, removed afterwards); the check runs with PY_ECC_REPO pointing at the copy and
+writes its evidence/replays to a scratch directory, so neither /repo nor the committed evidence is touched.
+usage: tools/sweep_seeds.py [-j N] [seed ids...]      -> seeded/RESULTS.json"""
+import json, os, shutil, subprocess, sys, tempfile, time
+from concurrent.futures import ThreadPoolExecutor
 HERE = os.path.dirname(os.path.dirname(os.path.abspath(__file__)))
 SD = os.path.join(HERE, "seeded")
 res_path = os.path.join(SD, "RESULTS.json")
+args = sys.argv[1:]
+jobs = 3
+if args[:1] == ["-j"]:
+    jobs = int(args[1]); args = args[2:]
 results = json.load(open(res_path)) if os.path.exists(res_path) else {}
-ids = sys.argv[1:] or sorted(d for d in os.listdir(SD) if os.path.isdir(os.path.join(SD, d)))
+ids = args or sorted(d for d in os.listdir(SD) if os.path.isdir(os.path.join(SD, d)))
 claimed = {c["property_id"] for c in json.load(open(os.path.join(HERE, "MANIFEST.json")))["checks"]}
-assert subprocess.run(["git", "-C", "/repo", "status", "--porcelain"], capture_output=True, text=True).stdout.strip() == "", "/repo not clean"
-for sid in ids:
+
+
+def one(sid):
     d = os.path.join(SD, sid)
     meta = json.load(open(os.path.join(d, "meta.json")))
     props = [meta["property"]] + meta.get("also", [])
-    r = subprocess.run(["git", "-C", "/repo", "apply", os.path.join(d, "patch.diff")])
-    if r.returncode:
-        results[sid] = dict(error="patch does not apply")
-        continue
-    out = {}
+    tmp = tempfile.mkdtemp(prefix=f"sweep-{sid}-")
     try:
+        shutil.copytree("/repo/py_ecc", os.path.join(tmp, "py_ecc"))
+        r = subprocess.run(["patch", "-p1", "-s", "-d", tmp, "-i", os.path.join(d, "patch.diff")], capture_output=True, text=True)
+        if r.returncode:
+            return sid, dict(error="patch does not apply: " + (r.stdout + r.stderr)[-300:])
+        out = {}
         for p in props:
             if p not in claimed:
-                out[p] = dict(exit=None, note="property not claimed yet")
+                out[p] = dict(exit=None, note="property not claimed")
                 continue
             t0 = time.time()
-            env = dict(os.environ, VERIF_EVIDENCE_DIR="/tmp/verif-sweep-evidence", VERIF_REPLAY_DIR="/tmp/verif-sweep-replays")
-            pr = subprocess.run(["./check", p], cwd=HERE, capture_output=True, text=True, env=env)
-            lines = [l for l in pr.stdout.splitlines() if l.startswith(("VIOLATION", "UNDECIDED", "CHECKER"))]
+            env = dict(os.environ, PY_ECC_REPO=tmp, VERIF_EVIDENCE_DIR=os.path.join(tmp, "evidence"), VERIF_REPLAY_DIR=os.path.join(tmp, "replays"))
+            pr = subprocess.run(["./check", p, "--jobs", "6"], cwd=HERE, capture_output=True, text=True, env=env)
+            lines = [l.replace(tmp, "<scratch>") for l in pr.stdout.splitlines() if l.startswith(("VIOLATION", "UNDECIDED", "CHECKER"))]
             failed = [l.strip()[:260] for l in pr.stdout.splitlines() if l.strip().startswith("failed obligation")]
-            out[p] = dict(exit=pr.returncode, seconds=round(time.time() - t0, 1), verdict_lines=lines[:6],
-                          failed_obligations=failed[:4],
+            out[p] = dict(exit=pr.returncode, seconds=round(time.time() - t0, 1), verdict_lines=lines[:6], failed_obligations=failed[:4],
                           with_input=any("no-failing-input-found" not in l for l in lines if l.startswith("VIOLATION")))
+        return sid, out
     finally:
-        subprocess.run(["git", "-C", "/repo", "checkout", "--", "."])
-    results[sid] = out
-    print(sid, {p: (v.get("exit"), "input" if v.get("with_input") else "") for p, v in out.items()}, flush=True)
-json.dump(results, open(res_path, "w"), indent=1, sort_keys=True)
+        shutil.rmtree(tmp, ignore_errors=True)
+
+
+with ThreadPoolExecutor(max_workers=jobs) as ex:
+    for sid, out in ex.map(one, ids):
+        results[sid] = out
+        print(sid, {p: (v.get("exit"), "input" if v.get("with_input") else "") for p, v in out.items()} if "error" not in out else out, flush=True)
+        json.dump(results, open(res_path, "w"), indent=1, sort_keys=True)
 caught = sum(1 for v in results.values() if any(isinstance(x, dict) and x.get("exit") == 1 for x in v.values()))
 print(f"{caught}/{len(results)} seeded defects reported as VIOLATION")
